@@ -95,8 +95,9 @@ func (s *Schema) fill(parent *GNode, t reflect.Type, prefix []int) error {
 		f := t.Field(i)
 		idx := append(append([]int{}, prefix...), i)
 		if f.Anonymous && f.Type.Kind() == reflect.Struct {
-			if _, ok := columnName(f); !ok {
-				// an embedded struct tagged parquet:"-" is an excluded field like any other
+			if _, ok := columnName(f); !ok || !f.IsExported() {
+				// an embedded struct tagged parquet:"-", or one whose type name is unexported (the
+				// field it declares is unexported), is an excluded field like any other
 				s.Excluded = append(s.Excluded, Excluded{Owner: t, Index: []int{i}})
 				continue
 			}
